@@ -75,6 +75,16 @@ func cacheSet(args []string) {
 			}
 		}
 	}
+	// VERIF_PAUSE_POINT=<point> VERIF_PAUSE_MARK=<file>: at that hook point write the mark file and wait to be killed
+	// from outside (a process that is pid 1 of its own pid namespace cannot kill itself)
+	if pp := os.Getenv("VERIF_PAUSE_POINT"); pp != "" {
+		file.VerifHook = func(point, path string) {
+			if point == pp {
+				os.WriteFile(os.Getenv("VERIF_PAUSE_MARK"), []byte(path), 0o644)
+				time.Sleep(time.Hour)
+			}
+		}
+	}
 	c, err := crl.NewFileCache(args[0])
 	if err != nil {
 		fatal("%v", err)
